@@ -162,6 +162,11 @@ fn gen_name(t: &mut Tape, prefix: &str, i: usize) -> String {
             _ => format!("{i}.5"),
         };
     }
+    // a name that is a keyword of the format when it stands elsewhere (only the quoted 'MARKER' in second position
+    // marks an integrality block; RHS / BOUNDS / ENDATA are section words only at the start of a line)
+    if i == 0 && t.p(16) {
+        return (*t.pick(&["MARKER", "RHS", "BOUNDS", "ENDATA", "RANGES", "MARKER"])).to_string();
+    }
     match t.choice(5) {
         0 => format!("{prefix}{i}"),
         1 => format!("{prefix}_{i}"),
@@ -213,7 +218,16 @@ pub fn gen_lp(t: &mut Tape, ctx: &mut Ctx) -> Lp {
             }
             cand
         } else {
-            gen_name(t, "r", i)
+            {
+                let nm = gen_name(t, "r", i);
+                if ["MARKER", "RHS", "BOUNDS", "ENDATA", "RANGES"].contains(&nm.as_str()) {
+                    ctx.label("row-named-like-a-keyword");
+                    if nm == "MARKER" {
+                        ctx.label("row-named-MARKER");
+                    }
+                }
+                nm
+            }
         };
         rows.push(Row { name, kind, rhs, range });
     }
@@ -292,7 +306,11 @@ pub fn gen_lp(t: &mut Tape, ctx: &mut Ctx) -> Lp {
         if zero_col && (obj.is_some() || !entries.is_empty()) {
             ctx.label("column-with-only-zero-entries");
         }
-        let mut col = Col { name: gen_name(t, "x", i), integer: integer_block, bound, nums, obj, entries };
+        let cname = gen_name(t, "x", i);
+        if ["MARKER", "RHS", "BOUNDS", "ENDATA", "RANGES"].contains(&cname.as_str()) {
+            ctx.label("column-named-like-a-keyword");
+        }
+        let mut col = Col { name: cname, integer: integer_block, bound, nums, obj, entries };
         if col.obj.is_none() && col.entries.is_empty() {
             // a column exists only through its entries
             col.obj = Some(Num { text: "1".into(), value: qi(1), dyadic: true });
